@@ -7,9 +7,11 @@ mod imports;
 mod loader;
 mod gqljs;
 mod opfile;
+mod parse;
 mod paths;
 mod project;
 mod render;
+mod tsread;
 mod util;
 
 use std::env;
@@ -30,8 +32,10 @@ fn main() {
         "imports" => imports::run(rest),
         "loader" => loader::run(rest),
         "opfile" => opfile::run(rest),
+        "parse" => parse::run(rest),
         "opfile-child" => opfile::run_child(rest),
         "loader-child" => loader::run_child(rest),
+        "tsread" => tsread::run(rest),
         other => {
             eprintln!("unknown command {other}");
             2
